@@ -28,6 +28,11 @@ def histories(rng, tier):
         h = [c.line(), c2.line()]
         for _ in range(rng.randint(2, 8)):
             r0 = rng.random()
+            if rng.random() < 0.08:
+                # one-call-at-a-time shuffled allocation with foreign blocks in between, then one long range
+                for ln in gen.scattered_range_lines(rng, c, path='slice'):
+                    h += [ln, ln.replace(' a ', ' b ', 1).replace('path=slice', 'path=expand')]
+                h += ['state a', 'state b', 'vals a', 'vals b']
             if r0 < 0.25 and c.kind != 'rec':
                 # a geometric shape through an operator / realize_geom on a; the explicit-pixel update
                 # of the same rendered pixels (the model's meaning of the shape) is what both are compared to
